@@ -12,6 +12,7 @@ import PyTough.Proofs.FromGeoNames
 import PyTough.Proofs.FromGeoArith
 import PyTough.Proofs.FromGeoConn
 import PyTough.Proofs.FromGeoTotal
+import PyTough.Proofs.FromGeoConnNodup
 import PyTough.Proofs.FromGeoExample
 
 namespace Props.C04
@@ -31,15 +32,49 @@ theorem fromgeo_blocks_eq_namelist (g : Geo) (m : BlockMap) (T : Grid) (hfresh :
 
 /-- The two independent loops — `setup_block_connection_name_index` and `add_connections` —
     enumerate the same sequence of ordered pairs: whenever `fromgeo` returns, the name-list
-    loop returns too, and (announced pairs distinct) the connection list of the grid is that
-    list, mapped, in the same order and orientation. -/
+    loop returns too and the connection list of the grid is that list, mapped, in the same order
+    and orientation.  No distinctness of the announced pairs has to be assumed: it follows from
+    the distinct block names, the layer stack (`LayersWF`) and the geometry's connection registry
+    (`ConnsWF`: one entry per ordered column pair, joining two different columns). -/
 theorem fromgeo_connections_eq_namelist (g : Geo) (m : BlockMap) (T : Grid) (hfresh : Fresh g)
-    (hinj : (g.blockNames.map (applyMap m)).Nodup) (h : fromgeo g m = .ok T) :
-    ∃ L, blockConnectionNameList g = .ok L ∧
-      ((L.map (mapPair m)).Nodup → T.conns.map TConn.names = L.map (mapPair m)) :=
-  Proofs.FromGeo.fromgeo_conns g m T hfresh hinj h
+    (hinj : (g.blockNames.map (applyMap m)).Nodup) (hwf : LayersWF g) (hcw : ConnsWF g)
+    (h : fromgeo g m = .ok T) :
+    ∃ L, blockConnectionNameList g = .ok L ∧ T.conns.map TConn.names = L.map (mapPair m) := by
+  obtain ⟨L, hL, himp⟩ := Proofs.FromGeo.fromgeo_conns g m T hfresh hinj h
+  exact ⟨L, hL, himp (Proofs.FromGeo.connNames_nodup g m hfresh hinj hwf hcw L hL)⟩
 
-example : Fresh Ex.geo ∧ (Ex.geo.blockNames.map (applyMap Ex.bmap)).Nodup := by decide +kernel
+/-- The grid `fromgeo` builds is consistent in the sense of C08 (clauses of `Model.Grid.Inv`
+    restated on this model): block names are unique (list and dictionary describe the same
+    blocks), connection keys are unique, every connection joins two different registered blocks,
+    and a block's `connection_name` record is exactly the set of keys of the connections that
+    mention it. -/
+theorem fromgeo_consistent (g : Geo) (m : BlockMap) (T : Grid) (hfresh : Fresh g)
+    (hinj : (g.blockNames.map (applyMap m)).Nodup) (hwf : LayersWF g) (hcw : ConnsWF g)
+    (h : fromgeo g m = .ok T) :
+    (T.blocks.map (·.name)).Nodup ∧ (T.conns.map TConn.names).Nodup ∧
+    (∀ c ∈ T.conns, (∃ b, findBlock T.blocks c.b0 = .ok b) ∧ (∃ b, findBlock T.blocks c.b1 = .ok b) ∧ c.b0 ≠ c.b1) ∧
+    (∀ b k, k ∈ connRecord T.conns b ↔ ∃ c ∈ T.conns, c.names = k ∧ (c.b0 = b ∨ c.b1 = b)) := by
+  have hb := fromgeo_blocks_eq_namelist g m T hfresh hinj h
+  obtain ⟨L, hL, hc⟩ := fromgeo_connections_eq_namelist g m T hfresh hinj hwf hcw h
+  have hLnd := Proofs.FromGeo.connNames_nodup g m hfresh hinj hwf hcw L hL
+  have hends := Proofs.FromGeo.connNamesFrom_ends g m hfresh hinj hwf hcw g.layers true g.layer0 [] L rfl (by simp) hL
+  refine ⟨by rw [hb]; exact hinj, by rw [hc]; exact hLnd, ?_, ?_⟩
+  · intro c hcm
+    have : c.names ∈ L.map (mapPair m) := by rw [← hc]; exact List.mem_map.2 ⟨c, hcm, rfl⟩
+    rw [List.mem_map] at this
+    obtain ⟨p, hp, hpe⟩ := this
+    obtain ⟨m1, m2, hne⟩ := hends p hp
+    simp only [mapPair, TConn.names, Prod.mk.injEq] at hpe
+    refine ⟨?_, ?_, by rw [← hpe.1, ← hpe.2]; exact hne⟩
+    · exact Proofs.FromGeo.findBlock_of_mem_names (by rw [hb, ← hpe.1]; exact List.mem_map.2 ⟨p.1, m1, rfl⟩)
+    · exact Proofs.FromGeo.findBlock_of_mem_names (by rw [hb, ← hpe.2]; exact List.mem_map.2 ⟨p.2, m2, rfl⟩)
+  · intro b k
+    simp only [connRecord, List.mem_map, List.mem_filter, Bool.or_eq_true, decide_eq_true_eq]
+    constructor
+    · rintro ⟨c, ⟨hc1, hc2⟩, rfl⟩; exact ⟨c, hc1, rfl, hc2⟩
+    · rintro ⟨c, hc1, rfl, hc2⟩; exact ⟨c, ⟨hc1, hc2⟩, rfl⟩
+
+example : Fresh Ex.geo ∧ (Ex.geo.blockNames.map (applyMap Ex.bmap)).Nodup ∧ LayersWF Ex.geo ∧ ConnsWF Ex.geo := by decide +kernel
 example : Ex.grid.blocks.map (·.name) =
     [['A','T','M',' ','0'], ['#','0','0','0','1'], [' ',' ','b',' ','1'], [' ',' ','a',' ','2'], [' ',' ','b',' ','2']] := by
   decide +kernel
